@@ -1,0 +1,16 @@
+//go:build verif && amd64 && go1.17 && !go1.27
+// +build verif,amd64,go1.17,!go1.27
+
+package jitdec
+
+import "reflect"
+
+// VerifDisassemble returns the IL listing the decoder compiler produces for vt
+// (a fresh compiler with the default compile options, as used by findOrCompile).
+func VerifDisassemble(vt reflect.Type) (string, error) {
+	p, err := newCompiler().compile(vt)
+	if err != nil {
+		return "", err
+	}
+	return p.disassemble(), nil
+}
